@@ -9,6 +9,7 @@ import (
 	"os"
 	"strconv"
 	"io/ioutil"
+	"regexp"
 	"strings"
 	"sync"
 
@@ -107,10 +108,45 @@ func emit(kind string, v map[string]interface{}) {
 }
 
 var nviol int
+var knownRe []*regexp.Regexp
+var knownOnce sync.Once
+var knownSeen = map[string]int{}
+
+// isKnown reports whether sig matches a KNOWN_FINDINGS entry of the running check (the
+// orchestrator passes the regular expressions in VERIF_KNOWN_SIGS, one per line). Known
+// findings are reported a few times per signature and do not count towards TooMany, so a
+// recorded finding never shortens the exploration.
+func isKnown(sig string) bool {
+	knownOnce.Do(func() {
+		for _, l := range strings.Split(os.Getenv("VERIF_KNOWN_SIGS"), "\n") {
+			if l = strings.TrimSpace(l); l != "" {
+				if re, err := regexp.Compile(l); err == nil {
+					knownRe = append(knownRe, re)
+				}
+			}
+		}
+	})
+	for _, re := range knownRe {
+		if re.MatchString(sig) {
+			return true
+		}
+	}
+	return false
+}
 
 // Violation reports behaviour of the real code that the specification forbids.
 // sig is the structural signature matched against KNOWN_FINDINGS.txt.
 func Violation(sig, desc string, replay interface{}) {
+	if isKnown(sig) {
+		mu.Lock()
+		knownSeen[sig]++
+		n := knownSeen[sig]
+		mu.Unlock()
+		if n <= 3 {
+			emit("violation", map[string]interface{}{"sig": sig, "desc": desc, "replay": replay})
+		}
+		return
+	}
 	mu.Lock()
 	nviol++
 	n := nviol
